@@ -388,6 +388,8 @@ func main() {
 			operr = w.AddWithOptions(&git.AddOptions{All: true})
 		case "addglob":
 			operr = w.AddGlob(c.S("path"))
+		case "rmglob":
+			operr = w.RemoveGlob(c.S("path"))
 		case "rm":
 			_, operr = w.Remove(c.S("path"))
 		case "mv":
@@ -440,7 +442,25 @@ func main() {
 		case "addall":
 			_, gerr = b.GitAt(b.Dir, nil, "add", "-A")
 		case "addglob":
-			_, gerr = b.GitAt(b.Dir, nil, "add", "--", ":(glob)"+c.S("path"))
+			// what a shell makes of the unquoted pattern: its expansion in the worktree (Go's own
+			// path/filepath.Glob, independent of go-billy's), the repository directory left out
+			ms, _ := filepath.Glob(filepath.Join(b.Dir, filepath.FromSlash(c.S("path"))))
+			args := []string{"add", "--"}
+			for _, m := range ms {
+				rel, _ := filepath.Rel(b.Dir, m)
+				rel = filepath.ToSlash(rel)
+				if rel == ".git" || strings.HasPrefix(rel, ".git/") {
+					continue
+				}
+				args = append(args, ":(literal)"+rel)
+			}
+			if len(args) == 2 {
+				gerr = os.ErrNotExist
+			} else {
+				_, gerr = b.GitAt(b.Dir, nil, args...)
+			}
+		case "rmglob":
+			_, gerr = b.GitAt(b.Dir, nil, "rm", "-r", "-f", "-q", "--", c.S("path"))
 		case "rm":
 			_, gerr = b.GitAt(b.Dir, nil, "rm", "-r", "-f", "-q", "--", c.S("path"))
 		case "mv":
@@ -466,7 +486,7 @@ func main() {
 		wb := worktreeOf(b.Dir)
 		extra["a_index"], extra["b_index"] = plain(ia), plain(ib)
 		extra["a_wt"], extra["b_wt"] = plain(wa), plain(wb)
-		if op == "mv" || op == "add" || op == "addall" {
+		if op == "mv" || op == "add" || op == "addall" || op == "addglob" {
 			sa, _ := a.GitStatus()
 			b2 := b
 			out, _ := b2.GitAt(b.Dir, nil, "-c", "core.quotepath=false", "status", "--porcelain=v1", "-z", "--untracked-files=all", "--no-renames")
@@ -484,7 +504,11 @@ func main() {
 			res = lib.Sym("err")
 		}
 		if op == "commit" {
-			return lib.List(res, render(tree)), extra
+			var id []byte
+			if tid, ok := extra["tree_id"].(string); ok && operr == nil {
+				id = lib.Unhex(tid)
+			}
+			return lib.List(res, render(tree), lib.Bytes(id)), extra
 		}
 		return lib.List(res, render(ia), render(wa)), extra
 	}, 16)
